@@ -24,7 +24,12 @@ HOSTILE = [
     "(define + -)", "(define (car x) 'a-car)", "(set! cons list)", "(define list vector)", "(define tick-free 1)",
     "(import (no such library))", "(import (only (scheme base) car))", "(car '())", "(undefined-procedure 1)", "(vector-ref (vector) 0)", "(/ 1 0)",
     "(define (map f l) 'a-map)", "(define apply 5)", "(my-mac 1 2)", "(cond (#t 1))", "(let ((q 1)) q)",
+    # a vector that contains itself is displayed, the cycle is broken and the vector dropped
+    "((lambda () (define c (vector 1 2)) (vector-set! c 0 c) (display c) (vector-set! c 0 0) 'gone))",
+    "((lambda () (define a (vector 0)) (define b (vector a a)) (vector-set! a 0 b) (display (list a b)) (vector-set! a 0 1) 'gone))",
 ]
+# B prints freshly made vectors (mutable ones, nested, shared)
+B_DISPLAYS = ["(display (vector 7 8 9))", "(display (list (vector 1) (make-vector 2 'x)))", "(display (let ((r (vector 1 2))) (vector r r (vector r))))", "(display (make-vector 3 (vector)))"]
 # library sources registered with instance A only: macros before and inside the define-library form, named like procedures that B defines
 A_LIBS = [
     {"name": ["util", "counter"], "src": "(define-syntax twice (syntax-rules () ((twice e) (begin e e)))) (define-library (util counter) (import (scheme base)) (export inc) "
@@ -103,6 +108,8 @@ def run(tier, seed):
             pos = rng.randrange(len(B) + 1)
             k = rng.choice([0, 2, 4, 6])
             B = B[:pos] + B_PROCS[k:k + 2] + B[pos:]
+        for _ in range(rng.randint(0, 3)):
+            B.insert(rng.randrange(len(B) + 1), rng.choice(B_DISPLAYS))
         A = program(rng, rng.choice(["core", "derived", "store"]))
         for _ in range(rng.randint(1, 5)):
             A.insert(rng.randrange(len(A) + 1), rng.choice(HOSTILE))
